@@ -32,6 +32,10 @@ def main():
         mp = os.path.join(sd, "meta.json")
         meta = json.load(open(mp)) if os.path.exists(mp) else {"property": sid.split("-")[0]}
         prop = meta.get("property", sid.split("-")[0])
+        if meta.get("superseded"):
+            rows.append((sid, prop, "SUPERSEDED", meta["superseded"][:200]))
+            print(sid, "SUPERSEDED", flush=True)
+            continue
         r = subprocess.run(["/venv/bin/python", os.path.join(VERIF, "tools", "trymut.py"), "--patch", os.path.join(sd, "patch.diff"), "--tier", a.tier,
                             "--seeds", "0", prop], cwd=VERIF, capture_output=True, text=True, timeout=3600)
         line = [ln for ln in r.stdout.splitlines() if ln.startswith(prop)]
@@ -48,7 +52,7 @@ def main():
             for sid, prop, verdict, res in rows:
                 sigs = res[res.find("["):][:220] if "[" in res else ""
                 f.write(f"| {sid} | {prop} | {verdict} {sigs} |\n")
-    return 0 if all(v == "DETECTED" for _, _, v, _ in rows) else 1
+    return 0 if all(v in ("DETECTED", "SUPERSEDED") for _, _, v, _ in rows) else 1
 
 
 if __name__ == "__main__":
